@@ -333,23 +333,23 @@ func check(prop, tier string) int {
 	}
 	hours := wall / 3600
 	cov := map[string]any{
-		"evaluations":            evals,
-		"distinct_nontrivial":    len(distinct),
-		"rule":                   meta.Rule,
-		"samples":                samples,
-		"simulated_runs":         totalRuns,
+		"evaluations":             evals,
+		"distinct_nontrivial":     len(distinct),
+		"rule":                    meta.Rule,
+		"samples":                 samples,
+		"simulated_runs":          totalRuns,
 		"simulated_runs_per_hour": int64(float64(totalRuns) / hours),
-		"executions_per_hour":    int64(float64(evals) / hours),
-		"seeds":                  fmt.Sprintf("VERIF_SEED=%d; run i uses splitmix(VERIF_SEED, property, i), i in [0,%d)", seed, runs),
-		"faults_fired":           faults,
-		"probes":                 probes,
-		"skipped":                skipped,
-		"simulated_time":         "not applicable: no code under test reads a clock; steps (Read/Write calls, yields, operations) are counted instead",
-		"components":             meta.Components,
-		"event_log_hash":         fmt.Sprintf("%016x", hashAll),
-		"shards":                 shards,
-		"violations_by_clause":   clauseCount,
-		"known_findings_matched": knownHit,
+		"executions_per_hour":     int64(float64(evals) / hours),
+		"seeds":                   fmt.Sprintf("VERIF_SEED=%d; run i uses splitmix(VERIF_SEED, property, i), i in [0,%d)", seed, runs),
+		"faults_fired":            faults,
+		"probes":                  probes,
+		"skipped":                 skipped,
+		"simulated_time":          "not applicable: no code under test reads a clock; steps (Read/Write calls, yields, operations) are counted instead",
+		"components":              meta.Components,
+		"event_log_hash":          fmt.Sprintf("%016x", hashAll),
+		"shards":                  shards,
+		"violations_by_clause":    clauseCount,
+		"known_findings_matched":  knownHit,
 	}
 	ev := map[string]any{
 		"property_id": prop,
